@@ -46,8 +46,18 @@ def plan(seed, subbatch):
     pre_k = feed.choice((0, 0, 0, 1, 1, 2, feed.randint(0, n), n))
     pre, ops, fired, rows = planlib.stream_and_schedule(seed, subbatch, n, base_s, start, faults, burst,
                                                         p_empty, preload=pre_k)
+    # occasionally a candle lifespan on top: conversion must still follow the recurrence over the
+    # WHOLE stream, of which the retained window is a suffix
+    lifespan = None
+    if cfg.random() < 0.25:
+        lifespan = (tf_s or base_s) * cfg.randint(3, 40)
+        fired["lifespan_configured"] += 1
+        if route == "hexital_member":
+            # a member's own timeframe manager is derived from the already trimmed base candles at
+            # construction (known finding C08/construction-trim): not this property's subject
+            route = "hexital_level"
     return {"format": 1, "property": ID, "seed": seed, "subbatch": subbatch,
-            "config": {"route": route, "tf": tf, "base_s": base_s, "spec": spec},
+            "config": {"route": route, "tf": tf, "base_s": base_s, "spec": spec, "lifespan_s": lifespan},
             "ops": [{"op": "new", "preload": pre}] + ops, "fired": dict(fired)}
 
 
@@ -61,6 +71,8 @@ def execute(trace, ctx=None):
         tf, route, spec = cfg["tf"], cfg["route"], cfg["spec"]
         tf_s = tf_seconds(tf) if tf else None
         label = spec_label(spec) if route != "manager" else "manager"
+        lifespan = cfg.get("lifespan_s")
+        life_armed = True
         delivered = []
         subject = view = None
         n_appends = 0
@@ -73,7 +85,7 @@ def execute(trace, ctx=None):
                 if kind == "new":
                     rows = op.get("preload") or []
                     delivered.extend(rows)
-                    subject, _m, view = run.call(len(rows), build_route, route, tf, rows, False, None,
+                    subject, _m, view = run.call(len(rows), build_route, route, tf, rows, False, lifespan,
                                                  "HA", spec)
                 elif subject is None:
                     continue
@@ -97,6 +109,17 @@ def execute(trace, ctx=None):
             candles = view()
             raw = refmodels.resample(delivered, tf_s) if tf_s else [list(r) for r in delivered]
             want = refmodels.heikin_ashi(raw)
+            if lifespan is not None and want:
+                keep = refmodels.trim([w[0] for w in want], lifespan)
+                if len(keep) < 2 <= len(want):
+                    # the open bucket lost its predecessor: re-converting it after a merge cannot follow
+                    # the recurrence any more (C15's "look-back still retained" precondition) -> stand down
+                    life_armed = False
+                    run.stats["guard:lifespan_window_below_two_stood_down"] += 1
+                want = [want[k] for k in keep]
+                raw = [raw[k] for k in keep]
+            if not life_armed:
+                continue
             run.observe(kind, [candle_core(c) for c in candles])
             if len(candles) != len(want):
                 raise Violation("ha-reference", route, "count", {"got": len(candles), "want": len(want)})
@@ -108,6 +131,8 @@ def execute(trace, ctx=None):
                     raise Violation("ha-reference", route, "volume", {"index": j, "got": g, "want": w})
                 if not all(_close(a, b) for a, b in zip(g[1:5], w[1:5])):
                     pos = "first" if j == 0 else "last" if j == len(want) - 1 else "inner"
+                    if lifespan is not None:
+                        pos += ":lifespan"
                     unconverted = all(_close(a, b) for a, b in zip(g[1:5], r[1:5]))
                     raise Violation("ha-reference", route,
                                     "ohlc:" + ("unconverted" if unconverted else "wrong") + ":" + pos,
@@ -123,7 +148,7 @@ def execute(trace, ctx=None):
             run.state(kind, min(len(candles), 3), tf is not None)
             # readings are computed on the converted values (batch twin over the converted candles)
             member = member_of(route, subject)
-            if member is not None and candles and (i == n_ops - 1 or i % 7 == 3):
+            if member is not None and candles and lifespan is None and (i == n_ops - 1 or i % 7 == 3):
                 if kind == "new":
                     try:
                         run.call(len(delivered), subject.calculate)
